@@ -281,6 +281,21 @@ class G:
     self.op(BO.BATCH_MATMUL, [x, y], [z], o, S.BuiltinOptions.BatchMatMulOptions)
     return z
 
+  def bmm_const_lhs(self, y, n_rows=3, adj_x=False, adj_y=False):
+    """BATCH_MATMUL whose FIRST operand is the constant (A @ y): const shape follows adj_x."""
+    ysh = self.shape[y]
+    k = ysh[-1] if adj_y else ysh[-2]
+    n = ysh[-2] if adj_y else ysh[-1]
+    ash = ysh[:-2] + ((k, n_rows) if adj_x else (n_rows, k))
+    a = self.const('bmm_lhs', self.w(ash, 0.5))
+    o = S.BatchMatMulOptionsT()
+    o.adjX = adj_x
+    o.adjY = adj_y
+    z = self.act('bmm', ysh[:-2] + (n_rows, n))
+    self.op(BO.BATCH_MATMUL, [a, y], [z], o, S.BuiltinOptions.BatchMatMulOptions)
+    self.classes.add('bmm_const_lhs')
+    return z
+
   def emb(self, ids, vocab, dim, w=None):
     w = self.const('emb_w', self.w((vocab, dim))) if w is None else w
     y = self.act('emb', self.shape[ids] + (dim,))
@@ -550,7 +565,7 @@ def rand_graph(g, rng, n_ops=6, allow_unsupported=True, allow_emb=True,
         g.classes.add('fused_activation_pool')
       outs = [getattr(g, k)(t, act=pact)]
     elif k == 'bmm':
-      outs = [g.bmm(t, n_out=int(rng.choice([17, 64]) if big else rng.choice([2, 4])), adj_y=bool(rng.random() < 0.4))]
+      outs = [g.bmm(t, n_out=int(rng.choice([17, 64]) if big else rng.choice([2, 4])), adj_x=bool(rng.random() < 0.2), adj_y=bool(rng.random() < 0.4))]
       g.classes.add('bmm_const_rhs')
     elif k == 'bmm_act':
       u = pick(lambda u: rank(u) == 3 and g.shape[u][0] == sh[0] and g.shape[u][2] == sh[2])
@@ -858,6 +873,26 @@ def t_while(rng):
   return _spec(b, [g], 'while')
 
 
+def t_tied_bias(rng):
+  """One non-zero BIAS constant read by two FULLY_CONNECTED operators whose inputs have different ranges (an unrolled recurrent cell);
+  the bias is one tensor or two tensors on one buffer."""
+  def f(g, rng):
+    x = g.inp((2, 6))
+    arr = g.w((6,), 0.5) + np.float32(0.3)
+    if rng.random() < 0.5:
+      b1 = b2 = g.const('cell_bias', arr)
+    else:
+      buf = g.b.new_buffer(arr)
+      b1 = g.const('cell_bias', arr, buffer=buf)
+      b2 = g.const('cell_bias', arr, buffer=buf)
+    w = g.const('cell_w', g.w((6, 6), 0.5)) if rng.random() < 0.5 else None
+    h1 = g.tanh(g.fc(x, 6, b=b1, w=w))
+    h2 = g.tanh(g.fc(g.mul(h1, g.const('gain', np.asarray(3.0, dtype=np.float32).reshape(()))), 6, b=b2, w=w))
+    g.classes.add('tied_bias')
+    return [h2] if rng.random() < 0.5 else [h1, h2]
+  return _single(rng, f, 'tied_bias')
+
+
 def t_producer_zero_float_out(rng):
   """Operator 0 is quantizable, its output feeds an op outside the table and a supported op."""
   def f(g, rng):
@@ -1013,7 +1048,7 @@ def t_all_unsupported(rng):
 
 TEMPLATES = [t_output_also_consumed, t_producer_zero_float_out, t_repeated_operand,
              t_unsupported_between, t_multi_group, t_shared_const_tensor, t_shared_buffer,
-             t_chain, t_weight_chain, t_duplicate_output, t_passthrough, t_very_deep, t_while]
+             t_chain, t_weight_chain, t_duplicate_output, t_passthrough, t_very_deep, t_while, t_tied_bias]
 
 
 def model_for_case(rng, multi_sub_p=0.0, template_p=0.15, shuffle_p=0.15, alias_p=0.25, **kw):
@@ -1068,7 +1103,9 @@ SINGLE_OPS = {
     'CONV_2D': ['conv', 'conv_1x1'],
     'DEPTHWISE_CONV_2D': ['dwconv', 'dwconv_mult2'],
     'CONV_2D_TRANSPOSE': ['tconv', 'tconv_nobias'],
-    'BATCH_MATMUL': ['bmm_const', 'bmm_const_adj', 'bmm_act', 'bmm_rank2', 'bmm_rank2_adj'],
+    'BATCH_MATMUL': ['bmm_const', 'bmm_const_adj', 'bmm_act', 'bmm_rank2', 'bmm_rank2_adj', 'bmm_const_adjx'],
+    # ('bmm_const_lhs', 'bmm_const_lhs_adjx' -- the constant as FIRST operand -- exist as variants but are kept out of the shared catalogue:
+    #  the library quantizes such a constant like a weight and the runtime refuses the result, KF-BMM-CONST-LHS-QUANTIZED-AS-WEIGHT)
     'EMBEDDING_LOOKUP': ['emb'],
     'AVERAGE_POOL_2D': ['avgpool', 'avgpool_relu'], 'RESHAPE': ['reshape'], 'SOFTMAX': ['softmax'], 'TANH': ['tanh'],
     'LOGISTIC': ['logistic'], 'GELU': ['gelu'], 'RSQRT': ['rsqrt'], 'TRANSPOSE': ['transpose'],
@@ -1118,6 +1155,12 @@ def single_op_model(rng, variant, odd=False, wide=False, huge_w_p=0.0):
     if v in ('bmm_rank2', 'bmm_rank2_adj'):
       x = g.inp((3, o(4, 5)))
       return [g.bmm(x, n_out=o(4, 3), adj_y=(v == 'bmm_rank2_adj'))]
+    if v in ('bmm_const_lhs', 'bmm_const_lhs_adjx'):
+      y = g.inp((o(2, 1), o(4, 5), 3))
+      return [g.bmm_const_lhs(y, n_rows=o(4, 3), adj_x=(v == 'bmm_const_lhs_adjx'), adj_y=bool(rng.random() < 0.3))]
+    if v == 'bmm_const_adjx':
+      x = g.inp((o(2, 1), o(4, 5), 3))
+      return [g.bmm(x, n_out=o(4, 3), adj_x=True, adj_y=bool(rng.random() < 0.5))]
     if v == 'bmm_act':
       x = g.inp((2, 3, 4))
       y = g.inp((2, 5, 4))
